@@ -251,8 +251,8 @@ def binding_patterns(rng, vs, n):
 
 def gen_cases(ctx):
     rng = ctx.rng
-    n_cond = ctx.scale(400, 4000)
-    n_list = ctx.scale(320, 3000)
+    n_cond = ctx.scale(330, 4000)
+    n_list = ctx.scale(270, 3000)
     cases, skipped = [], 0
     seen = set()
 
@@ -398,7 +398,7 @@ def run(ctx):
     sample = [c for i, c in enumerate(judged) if i % 7 == 0]
     mexprs = [judge_expr("model_ground_ok", c) for c in sample]
     # the compact text form against the constructor form on a sample (the decoder of C54/Model.v is on the comparison path)
-    xsample = [c for i, c in enumerate(judged) if i % 9 == 4 and case_s(c, c["answers"]) is not None]
+    xsample = [c for i, c in enumerate(judged) if i % 25 == 4 and case_s(c, c["answers"]) is not None]
     xexprs = ["Bool.eqb (check_case_s %s) (check_case %s %s) && match decode %s with Some _ => true | None => false end"
               % (case_s(c, c["answers"]), case_coq(c), answers_coq(c["answers"]), case_s(c, c["answers"])) for c in xsample]
     t1 = time.time()
